@@ -94,7 +94,7 @@ def trim(poly):
 
 def build_cases(ctx):
     q = ctx.quick()
-    cases = G.standard_cases(ctx.rng, ctx.pick(55, 1500), maxdeg=ctx.pick(12, 40))
+    cases = G.standard_cases(ctx.rng, ctx.pick(55, 600), maxdeg=ctx.pick(12, 40))
     cases += G.c01_targeted_cases(ctx.rng, maxdeg=ctx.pick(12, 30), big=not q)
     if not q:
         cases += G.c01_targeted_cases(ctx.rng, maxdeg=20, big=True)
@@ -250,8 +250,8 @@ def run(ctx):
     ctx.log("solves done")
     # resolution cap by degree (cost of a certificate ~ degree^2 * bits^2)
     if ctx.quick(): cap = lambda d: 1300 if d <= 2 else 700 if d <= 4 else 420 if d <= 8 else 280
-    else: cap = lambda d: 3400 if d <= 8 else 2000 if d <= 16 else 1200 if d <= 24 else 700
-    groups = e2e.certify_records_grouped(ctx, recs, max_bits=cap, max_degree=ctx.pick(20, 40), timeout=ctx.pick(45, 900))
+    else: cap = lambda d: 3400 if d <= 4 else 2000 if d <= 8 else 1000 if d <= 16 else 600 if d <= 24 else 400
+    groups = e2e.certify_records_grouped(ctx, recs, max_bits=cap, max_degree=ctx.pick(20, 40), timeout=ctx.pick(45, 240))
     ctx.log("certification done: %d of %d certified" % (sum(1 for r in recs if r["oracle"] is not None), len(recs)))
     stats = collections.Counter(); samples = []; nontrivial = set(); evaluations = 0
     lists = []; grouped = set()
